@@ -24,7 +24,9 @@ def expand_saved_queries(zdir: PathLike, qstring: str) -> Optional[str]:
                 query_name=qname,
             )
             return None
-        new_qstring = new_qstring.replace(f"{{{qname}}}", sub_where_filter)
+        new_qstring = new_qstring.replace(
+            f"{{{qname}}}", _as_subfilter(sub_where_filter)
+        )
     _LOGGER.debug(
         "All saved query references have been expanded",
         original_query=qstring,
@@ -91,6 +93,15 @@ def _get_saved_where_filter(zdir: PathLike, query_name: str) -> Optional[str]:
             )
             return None
         where_filter = where_filter.replace(
-            f"{{{sub_query_name}}}", sub_where_filter
+            f"{{{sub_query_name}}}", _as_subfilter(sub_where_filter)
         )
     return where_filter
+
+
+def _as_subfilter(where_filter: str) -> str:
+    """Wraps {where_filter} in parentheses if it contains alternatives.
+
+    Otherwise, splicing e.g. 'foo | bar' into 'W - {name}' would yield
+    'W - foo | bar' [i.e. '(- foo) | bar'] instead of 'W - (foo | bar)'.
+    """
+    return f"({where_filter})" if "|" in where_filter else where_filter
